@@ -342,6 +342,35 @@ fn two_d_case(rep: &mut Report, rng: &mut Rng) {
             (other, fa) => rep.fail(&format!("2-D unexpected result {:?} with failure at {:?}", other.map(|x| x.map_err(|e| e.to_string())).map_err(|_| "panic"), fa), J::Null),
         }
     }
+    // the single-point entry points: interp, interp_into (and interp_scalar on rank-2 data) hand the strategy
+    // the unmodified pair (x, y), x first, and a target of the trailing shape
+    {
+        let log: Shared = Default::default();
+        let interp = Interp2DBuilder::new(data.clone()).strategy(RecBuilder::<2> { log: log.clone(), fail_build: false, fail_at: None }).build().unwrap();
+        log.borrow_mut().calls.clear();
+        let a = interp.interp(3.25, -8.5).map(|a| a.shape().to_vec());
+        let mut buf = ArrayD::from_elem(IxDyn(&trail), 0.0);
+        let b = interp.interp_into(-1.5, 6.75, buf.view_mut()).is_ok();
+        rep.evaluations += 2;
+        rep.count("2d-single-point");
+        let lg = log.borrow().clone();
+        let want = vec![(3.25, -8.5, trail.clone()), (-1.5, 6.75, trail.clone())];
+        if lg.calls != want || a.ok() != Some(trail.clone()) || !b {
+            rep.fail(&format!("2-D interp / interp_into: strategy call trace {:?}, expected {:?} (x first, then y, target of the trailing shape)", lg.calls, want), J::Null);
+        }
+        if trail.is_empty() {
+            let d2 = data.clone().into_dimensionality::<ndarray::Ix2>().unwrap();
+            let log2: Shared = Default::default();
+            let i2 = Interp2DBuilder::new(d2).strategy(RecBuilder::<2> { log: log2.clone(), fail_build: false, fail_at: None }).build().unwrap();
+            log2.borrow_mut().calls.clear();
+            let _ = i2.interp_scalar(0.125, 9.5);
+            rep.evaluations += 1;
+            let c = log2.borrow().calls.clone();
+            if c.len() != 1 || c[0].0 != 0.125 || c[0].1 != 9.5 {
+                rep.fail(&format!("2-D interp_scalar: strategy saw {:?}, expected the pair (0.125, 9.5)", c), J::Null);
+            }
+        }
+    }
     let _ = strictly_increasing;
 }
 fn rng_static(f: Option<usize>) -> bool {
